@@ -3,7 +3,7 @@
     "the public functions present in the source now" -- finite, enumerated completely. *)
 From Coq Require Import List String Bool.
 Import ListNotations.
-From Hip Require Import Api.
+From Hip Require Import Api ApiAudit.
 From HipGen Require Import ApiTable.
 
 Definition audit_ok (f : api_fn) : bool := audit_entry (f_unsafe f) (f_safety_doc f) (f_unchecked f).
@@ -74,3 +74,9 @@ Print Assumptions C17_ref_accessors.
 
 Definition unaudited_ref_accessors : list (string * nat * string) :=
   map (fun r => (r_file r, r_line r, r_name r)) (filter (fun r => negb (ref_ok r)) ref_table).
+
+(** ** every safe function that wraps an `unsafe` block is one whose checks were examined; no public trait offers one to implementors/callers *)
+Theorem C17_safe_wrappers_known : forallb is_audited safe_with_unsafe = true /\ trait_safe_with_unsafe = [].
+Proof. split; vm_compute; reflexivity. Qed.
+
+Definition unaudited_safe_wrappers : list (string * string) := filter (fun e => negb (is_audited e)) safe_with_unsafe ++ trait_safe_with_unsafe.
